@@ -41,6 +41,7 @@ CONSTANTS ShapeSet,     \* the family of plan shapes explored (Init picks one)
           MaxCrashes,   \* crashes per behaviour
           MaxRuns,      \* runs of one continuous-check loop (ticks) per process lifetime
           Tolerated,    \* clauses allowed to be false (known findings), normally {}
+          FnOut,        \* TRUE: a plugin's outcome is a function of the action alone (also across restarts)
           Gen           \* "off" | "full": hist is the history of observable events (scenario generation)
                         \* | "last": hist = <<last event, parity>> (trace conformance, EngineConf.tla)
 
@@ -57,10 +58,11 @@ VARIABLES sh,                 \* the shape (never changes)
           cl, ch, runs,       \* cont loops, their channels, ticks used
           waiter, alive, crashes,
           ncall,              \* [action -> plugin calls in this process lifetime]
+          fate,               \* [action -> the outcome it had so far | "?"]   (only constrains anything when FnOut)
           wq,                 \* End: objects still to be written by writeEverything
           obs, bad, hist
 
-evars == <<sh, mem, dur, mreason, dreason, pc, cb, wk, lim, fails, li, am, rn, cl, ch, runs, waiter, alive, crashes, ncall, wq>>
+evars == <<sh, mem, dur, mreason, dreason, pc, cb, wk, lim, fails, li, am, rn, cl, ch, runs, waiter, alive, crashes, ncall, fate, wq>>
 vars == <<evars, obs, bad, hist>>
 
 (* ------------------------------------------------------------------ *)
@@ -153,6 +155,7 @@ Init ==
   /\ runs = [sc \in 0..Len(sh.blocks) |-> 0]
   /\ waiter = "none" /\ alive = TRUE /\ crashes = 0
   /\ ncall = [o \in {d.obj : d \in {x \in DescsOf(sh) : x.k \in {"act", "cact"}}} |-> 0]
+  /\ fate = [o \in {d.obj : d \in {x \in DescsOf(sh) : x.k \in {"act", "cact"}}} |-> "?"]
   /\ wq = <<>>
   /\ obs = InitObs(ConfigOf(sh)) /\ bad = {} /\ hist = IF Gen = "last" THEN <<[ev |-> "none"], 0>> ELSE <<>>
 
@@ -171,7 +174,7 @@ AStart(a) ==
             /\ Emit([EvW(a) EXCEPT !.st = RU])
        ELSE UNCHANGED <<mem, dur>> /\ Silent
   /\ am' = [am EXCEPT ![a] = IF mem[a].st \in {NS, RU} THEN "exec" ELSE "done"]
-  /\ UNCHANGED ncall /\ UNCH_MAIN
+  /\ UNCHANGED <<ncall, fate>> /\ UNCH_MAIN
 \* exec: out of budget => permanent stop; otherwise the plugin is invoked
 AExec(a) ==
   /\ am[a] = "exec"
@@ -179,10 +182,11 @@ AExec(a) ==
        THEN am' = [am EXCEPT ![a] = "end"] /\ UNCHANGED ncall /\ Silent
        ELSE /\ am' = [am EXCEPT ![a] = "incall"] /\ ncall' = [ncall EXCEPT ![a] = @ + 1]
             /\ Emit(EvPS(a, ncall[a] + 1))
-  /\ UNCHANGED <<mem, dur>> /\ UNCH_MAIN
+  /\ UNCHANGED <<mem, dur, fate>> /\ UNCH_MAIN
 \* the plugin returns: the attempt is appended (memory)
 APEnd(a, out) ==
   /\ am[a] = "incall"
+  /\ (FnOut => fate[a] \in {"?", out}) /\ fate' = [fate EXCEPT ![a] = out]
   /\ mem' = [mem EXCEPT ![a].atts = Append(@, Letter(out))]
   /\ am' = [am EXCEPT ![a] = "watt"]
   /\ Emit(EvPE(a, ncall[a], out))
@@ -192,7 +196,7 @@ AWAtt(a) ==
   /\ am[a] = "watt"
   /\ Write(a) /\ Emit(EvW(a))
   /\ am' = [am EXCEPT ![a] = IF LastOf(mem[a]) \in {"tr", "timeout"} THEN "exec" ELSE "end"]
-  /\ UNCHANGED <<mem, ncall>> /\ UNCH_MAIN
+  /\ UNCHANGED <<mem, ncall, fate>> /\ UNCH_MAIN
 \* End: Completed iff the last attempt has no error; written
 AEnd(a) ==
   /\ am[a] = "end"
@@ -201,7 +205,7 @@ AEnd(a) ==
        /\ dur' = [dur EXCEPT ![a] = [mem[a] EXCEPT !.st = st]]
        /\ Emit([EvW(a) EXCEPT !.st = st])
   /\ am' = [am EXCEPT ![a] = "done"]
-  /\ UNCHANGED ncall /\ UNCH_MAIN
+  /\ UNCHANGED <<ncall, fate>> /\ UNCH_MAIN
 ActionStep(a) ==
   \/ AStart(a) \/ AExec(a) \/ AWAtt(a) \/ AEnd(a)
   \/ \E out \in (IF KindOf(a) = "act" THEN SeqOutcomes ELSE ChkOutcomes) : APEnd(a, out)
@@ -210,7 +214,7 @@ ActionStep(a) ==
 (* one run of a check group (runChecksOnce + runActionsParallel)      *)
 (*   idle -> mark(k) -> acts -> done(res)      started by its caller   *)
 (* ------------------------------------------------------------------ *)
-UNCH_RUN == UNCHANGED <<sh, mreason, dreason, pc, cb, wk, lim, fails, li, cl, ch, runs, waiter, alive, crashes, wq, ncall>>
+UNCH_RUN == UNCHANGED <<sh, mreason, dreason, pc, cb, wk, lim, fails, li, cl, ch, runs, waiter, alive, crashes, wq, ncall, fate>>
 GroupScope(g) == obs.dd[g].b
 GroupKind(g) == obs.dd[g].g
 GActsOf(g) == GActs(GroupScope(g), GroupKind(g))
@@ -220,7 +224,12 @@ RMark(g) ==
   /\ LET n == ScopeGroups(GroupScope(g))[GroupKind(g)]
          k == rn[g].k
          a == CAct(GroupScope(g), GroupKind(g), k) IN
-     IF k > n
+     IF k = 0      \* the group itself is Running while a run is in progress (written)
+       THEN /\ mem' = [mem EXCEPT ![g].st = RU]
+            /\ IF dur[g].st # RU THEN dur' = [dur EXCEPT ![g].st = RU] /\ Emit([ev |-> "W", obj |-> g, k |-> "chk", st |-> RU, natt |-> 0, last |-> "none", aok |-> TRUE, rtag |-> ""])
+                                  ELSE UNCHANGED dur /\ Silent
+            /\ rn' = [rn EXCEPT ![g].k = 1] /\ UNCHANGED am
+     ELSE IF k > n
        THEN /\ rn' = [rn EXCEPT ![g] = [st |-> "acts", k |-> 0]]
             /\ am' = [x \in DOMAIN am |-> IF x \in GActsOf(g) THEN "start" ELSE am[x]]
             /\ UNCHANGED <<mem, dur>> /\ Silent
@@ -240,7 +249,7 @@ RJoin(g) ==
   /\ am' = [x \in DOMAIN am |-> IF x \in GActsOf(g) THEN "idle" ELSE am[x]]
   /\ UNCH_RUN
 RunStep(g) == RMark(g) \/ RJoin(g)
-StartRun(r, g) == [r EXCEPT ![g] = [st |-> "mark", k |-> 1]]
+StartRun(r, g) == [r EXCEPT ![g] = [st |-> "mark", k |-> 0]]
 RunDone(g) == rn[g].st = "done"
 RunOK(g) == mem[g].st = CO
 ClearRun(r, g) == [r EXCEPT ![g] = [st |-> "idle", k |-> 0]]
@@ -249,7 +258,7 @@ ClearRun(r, g) == [r EXCEPT ![g] = [st |-> "idle", k |-> 0]]
 (* continuous-check loops (runContChecks) and their channels          *)
 (*   off -> wait -> run -> (wait | exit) ; exit closes the channel     *)
 (* ------------------------------------------------------------------ *)
-UNCH_CL == UNCHANGED <<sh, mem, dur, mreason, dreason, pc, cb, wk, lim, fails, li, am, waiter, alive, crashes, wq, ncall>>
+UNCH_CL == UNCHANGED <<sh, mem, dur, mreason, dreason, pc, cb, wk, lim, fails, li, am, waiter, alive, crashes, wq, ncall, fate>>
 CName(sc) == Grp(sc, "cont")
 \* select: the ticker fires => one more run (both branches are enabled when cancelled: Go picks either)
 CTick(sc) ==
@@ -279,7 +288,7 @@ ChanDrained(sc) == ch[sc].closed /\ ~ch[sc].err
 (* sequence workers (the goroutine in ExecuteSequences + execSeq)     *)
 (*   w0 -> act(k) -> wait(k) -> ... -> rel(res) -> gone                *)
 (* ------------------------------------------------------------------ *)
-UNCH_WK == UNCHANGED <<sh, mreason, dreason, pc, cb, li, rn, cl, ch, runs, waiter, alive, crashes, wq, ncall>>
+UNCH_WK == UNCHANGED <<sh, mreason, dreason, pc, cb, li, rn, cl, ch, runs, waiter, alive, crashes, wq, ncall, fate>>
 Exceeded(b) == Tol(b) >= 0 /\ fails > Tol(b)
 SeqD(q) == obs.dd[q]
 \* defense in depth: threshold already exceeded => nothing runs; else sequence := Running, written
@@ -328,7 +337,7 @@ WorkersQuiet == \A q \in DOMAIN wk : wk[q].st \in {"none", "gone"}
 (* ------------------------------------------------------------------ *)
 (* the plan goroutine                                                 *)
 (* ------------------------------------------------------------------ *)
-UNCH_M == UNCHANGED <<sh, alive, crashes, ncall>>
+UNCH_M == UNCHANGED <<sh, alive, crashes, ncall, fate>>
 Goto(l) == pc' = l
 BlkName == ScopeName(cb)
 \* deferred UpdatePlan / UpdateBlock at the end of a state function: only when it changes the stored record
@@ -352,7 +361,7 @@ MStart ==
 \* ---- a synchronous run of one group (or of pre || cont) from the main goroutine:
 \*      pc "X" starts the runs and moves to "X_j"; "X_j" joins
 UNCH_MR == UNCHANGED <<mem, dur, mreason, dreason, cb, wk, lim, fails, li, am, cl, ch, runs, waiter, wq>>
-StartRuns(gs) == rn' = [g \in DOMAIN rn |-> IF g \in gs THEN [st |-> "mark", k |-> 1] ELSE rn[g]]
+StartRuns(gs) == rn' = [g \in DOMAIN rn |-> IF g \in gs THEN [st |-> "mark", k |-> 0] ELSE rn[g]]
 Joined(gs) == \A g \in gs : RunDone(g)
 ClearRuns(gs) == rn' = [g \in DOMAIN rn |-> IF g \in gs THEN [st |-> "idle", k |-> 0] ELSE rn[g]]
 PreSet(sc) == {Grp(sc, g) : g \in {x \in {"pre", "cont"} : Has(sc, x)}}
@@ -607,7 +616,7 @@ Crash ==
   /\ runs' = [sc \in DOMAIN runs |-> 0] /\ ncall' = [a \in DOMAIN ncall |-> 0] /\ wq' = <<>>
   /\ mem' = dur /\ mreason' = dreason           \* what the next process will read
   /\ Emit([ev |-> "Crash", snap |-> SnapSeq(dur), reason |-> dreason, base |-> "-", old |-> FALSE, recovery |-> TRUE])
-  /\ UNCHANGED <<sh, dur, dreason, cb>>
+  /\ UNCHANGED <<sh, dur, dreason, cb, fate>>
 
 \* fixAction on a record
 FixAct(r) == IF r.st # RU THEN r
@@ -642,7 +651,7 @@ NewProcess ==
   /\ IF dur["p"].st = RU THEN waiter' = "open" /\ pc' = "fix" ELSE waiter' = "none" /\ pc' = "finished"
   /\ IF dur["p"].st = RU THEN Emit([ev |-> "NewProc", running |-> TRUE])
      ELSE Emit([ev |-> "WaitRet", ok |-> TRUE, snap |-> SnapSeq(dur), reason |-> dreason, infl |-> 0])
-  /\ UNCHANGED <<sh, mem, dur, mreason, dreason, cb, wk, lim, fails, li, am, rn, cl, ch, runs, crashes, ncall, wq>>
+  /\ UNCHANGED <<sh, mem, dur, mreason, dreason, cb, wk, lim, fails, li, am, rn, cl, ch, runs, crashes, ncall, fate, wq>>
 \* fixPlan up to the blocks: plan-level verdicts, then fixBlock on every block (in-memory), then the sequences
 \* that are still Running are executed by fixBlock itself (all at once, no limiter, no threshold check)
 PlanVerdictEarly(m) ==
@@ -650,11 +659,18 @@ PlanVerdictEarly(m) ==
   ELSE IF GroupFailedM(m, 0, "pre") THEN FA
   ELSE IF GroupFailedM(m, 0, "post") THEN FA
   ELSE RU
+\* fixChecks: a group that was Running at the crash (an interrupted run) is reset together with its actions
+ResetGroups(m, scopes) ==
+  [o \in DOMAIN m |->
+     IF obs.dd[o].k = "chk" /\ obs.dd[o].b \in scopes /\ m[o].st = RU THEN R0
+     ELSE IF obs.dd[o].k = "cact" /\ obs.dd[o].b \in scopes /\ m[Grp(obs.dd[o].b, obs.dd[o].g)].st = RU THEN R0
+     ELSE m[o]]
 MFix ==
   /\ pc = "fix"
-  /\ IF PlanVerdictEarly(mem) # RU
-       THEN mem' = [mem EXCEPT !["p"].st = PlanVerdictEarly(mem)] /\ Goto("End") /\ UNCHANGED wk
-       ELSE LET m1 == FixBlocks(mem, 1) IN
+  /\ LET m0 == ResetGroups(mem, {0}) IN
+     IF PlanVerdictEarly(m0) # RU
+       THEN mem' = [m0 EXCEPT !["p"].st = PlanVerdictEarly(m0)] /\ Goto("End") /\ UNCHANGED wk
+       ELSE LET m1 == FixBlocks(ResetGroups(m0, 1..NBk), 1) IN
             /\ mem' = m1
             /\ wk' = [q \in DOMAIN wk |-> IF m1[q].st = RU /\ m1[ScopeName(obs.dd[q].b)].st = RU /\ mem[ScopeName(obs.dd[q].b)].st = RU
                                           THEN [st |-> "w0", k |-> 1] ELSE WK0]
